@@ -324,6 +324,15 @@ def run(rep, tier, seed):
                 rep.violation("C04/wrong-class", f"encrypted session with a mismatching device name: raised {out[1]}({out[2]!r}), expected {exp[1]}({exp[2]!r})", replay)
         elif out[0] != "ok":
             rep.violation("C04/name-rejected", f"encrypted session with the expected device name was refused: {out}", replay)
+    for kind in ("noise-flip", "noise-replay", "plain-noise-frame", "plain-bad-preamble"):
+        got, want, closed, late = deviation_during_disconnect_probe(kind)
+        rep.case(("deviation-during-disconnect", kind), True, sample={"deviation_during_disconnect": kind, "pending_request": got, "closed": closed})
+        rep.bump("probe:deviation-during-disconnect")
+        replay = {"kind": "impl-case", "variant": "deviation-during-disconnect", "deviation": kind}
+        if late or not closed:
+            rep.violation("C04/delivery-after-deviation", f"{kind} while a graceful disconnect waits for the device: connection closed: {closed}, {late} message(s) delivered after the deviation", replay)
+        elif got != want:
+            rep.violation("C04/unspecific-error", f"{kind} while a graceful disconnect waits for the device: the request in flight ended with {got}, the specific error is {want}", replay)
     # ---- the expected name as configured when the device announces itself: constructor, setter before the attempt, setter between the phases
     from checks import c03 as _c03
     for names, when in ((["other"], "ctor"), (["other"], "before"), (["other"], "between"), (["other", "dev"], "between"), (["dev", "other"], "between")):
@@ -427,10 +436,87 @@ def apply_variant(st, label):
     raise ValueError(label)
 
 
+def deviation_during_disconnect_probe(kind):
+    """An established session with a request in flight; the application has called disconnect() and is waiting for the device's
+    answer when the stream deviates (a Noise data frame with a flipped byte / a replayed frame; for a plaintext client a Noise
+    frame or a wrong first byte). The session ends closed with the specific error class, which is what the request in flight and
+    the waiting disconnect see - a graceful disconnect under way does not blur it. Returns (error class of the pending request,
+    expected class, connection closed, messages delivered after the deviation)."""
+    from vlib import simnet
+
+    async def go(loop):
+        from aioesphomeapi import api_pb2 as pb
+        from aioesphomeapi.connection import APIConnection, ConnectionParams, ConnectionState as S
+        from aioesphomeapi.zeroconf import ZeroconfManager
+        net = simnet.Net(loop)
+        psk = bytes(range(1, 33))
+        noise = kind.startswith("noise")
+        params = ConnectionParams(addresses=["10.0.0.1"], port=6053, password=None, client_info="v", keepalive=20.0,
+                                  zeroconf_manager=ZeroconfManager(), noise_psk=noisesim.b64(psk) if noise else None, expected_name=None)
+        conn = APIConnection(params, lambda e: None, False, None)
+        seen = []
+        with net.patched():
+            await conn.start_connection()
+            task = asyncio.ensure_future(conn.finish_connection(login=False))
+            await simnet.drain(loop)
+            tr = net.transports[-1]
+            if noise:
+                resp = noisesim.Responder(psk, b"dev")
+                hs, _ = resp.handshake_frames(noisesim.split_frames(b"".join(d for _, d in tr.writes))[1][1:])
+                tr.feed(resp.hello_frame() + hs)
+                await simnet.drain(loop)
+                mk = lambda i, p=b"": resp.data_frame(i, p)[0]  # noqa: E731
+            else:
+                mk = lambda i, p=b"": simnet.plain_frame(i, p)  # noqa: E731
+            tr.feed(mk(2, pb.HelloResponse(api_version_major=1, api_version_minor=10, name="dev").SerializeToString()))
+            await simnet.drain(loop)
+            await task
+            conn.add_message_callback(lambda m: seen.append(m.key), (pb.SensorStateResponse,))
+            call = asyncio.ensure_future(conn.send_messages_await_response_complex((pb.DeviceInfoRequest(),), None, None, (pb.DeviceInfoResponse,), 30.0))
+            await simnet.drain(loop)
+            disc = asyncio.ensure_future(conn.disconnect())
+            await simnet.drain(loop)
+            good = mk(25, pb.SensorStateResponse(key=1, state=1.0).SerializeToString())
+            if kind == "noise-flip":
+                bad = bytearray(mk(25, pb.SensorStateResponse(key=2, state=1.0).SerializeToString()))
+                bad[5] ^= 0x40
+                bad, want = bytes(bad), "InvalidEncryptionKeyAPIError"
+            elif kind == "noise-replay":
+                bad, want = good, "InvalidEncryptionKeyAPIError"
+            elif kind == "plain-noise-frame":
+                bad, want = noisesim.frame(b"\x01dev\0"), "RequiresEncryptionAPIError"
+            else:
+                bad, want = b"\x42\x00\x00", "ProtocolAPIError"
+            tr.feed(good)
+            await simnet.drain(loop)
+            n_before = len(seen)
+            tr.feed(bad + (mk(25, pb.SensorStateResponse(key=3, state=1.0).SerializeToString()) if kind != "noise-replay" else b""))
+            await simnet.drain(loop)
+            got = "pending" if not call.done() else "cancelled" if call.cancelled() else type(call.exception()).__name__ if call.exception() else "result"
+            closed = conn.connection_state is S.CLOSED
+            late = len(seen) - n_before
+            for t in (call, disc):
+                if not t.done():
+                    t.cancel()
+            conn.force_disconnect()
+            await simnet.drain(loop)
+            for t in (call, disc):
+                try:
+                    t.exception()
+                except BaseException:  # noqa: BLE001
+                    pass
+        return got, want, closed, late
+    return simnet.run(go)
+
+
 def replay(path):
     common.setup_impl_path()
     asyncio.set_event_loop(asyncio.new_event_loop())
     d = json.loads(open(path).read())["replay"]
+    if d.get("variant") == "deviation-during-disconnect":
+        r = deviation_during_disconnect_probe(d["deviation"])
+        print(r)
+        return 1 if (r[0] != r[1] or not r[2] or r[3]) else 0
     if d.get("variant") == "client-name":
         from checks import c03 as _c03
         from vlib import simnet
